@@ -30,6 +30,11 @@ CHECKS = {
    technique="TLA+ model of the precedence-climbing loop and of the declarative grouping (FoPrec.tla), TLC checks them equal on every enumerated chain; the chains are transpiled by the real fc, the emitted Go expression trees are recovered with go/parser and validated by TLC (FoPrecTrace.tla)",
    text="The published operator table, the parser's precedence-climbing loop (as a machine) and the declarative grouping are explicit in TLA+; TLC proves machine = declarative for all 22,620 chains of 1-4 non-pipe operators plus operand variants (application, not, parentheses) and pipe combinations, and validates, for each of them and for line-broken layouts, the expression tree read back from the Go that the real fc emits. Exhaustive over the stated space in both tiers (thorough adds every line-break position).",
    note="Trusted: go/parser reading of the emitted Go; the renderer that prints a token chain as a Folang function; operands are int parameters (fc does not type-check operators)."),
+ "C09": dict(
+   category="model_checking", design_ref="4.9", engine="FoMatch",
+   technique="TLA+ model of the exhaustiveness decision (FoMatch.tla: marking machine vs declarative coverage, checked equal by TLC on every enumerated configuration); every configuration is one run of the real fc binary, accepted programs are compiled and run on every constructor, observations validated by TLC (FoMatchTrace.tla)",
+   text="TLC enumerates every union with 1..4 cases (quick; 5 in thorough) x payload mixes x ordered non-empty arm subsets x arm forms x default/no default, proves the parser's marking procedure equal to the declarative coverage condition, and validates what the real fc binary did on each configuration (exit status, output file, diagnostic naming an uncovered case, no runtime fatal error) in the plain context and nested in let/if/arm/lambda, after earlier matches on the same union in the same run, and on un-annotated targets; accepted programs are compiled and called with every constructor and must dispatch to the matching arm and never reach the emitted panic.",
+   note="Trusted: the renderer of configurations into Folang; whole-word search of case names in fc's diagnostic; payloads are ints; quick tier samples the non-plain contexts by seed."),
 }
 
 def cmd(pid, tier):
